@@ -45,9 +45,10 @@ static void item (long it, void *arg)
 	if (it < TB_MAX) {
 		uint64_t T = (uint64_t) it + 1;
 		for (b = 1; b <= (uint64_t) TB_MAX; b++) { check_one (T, 1, b); n++; }
+		vf_heartbeat ();
 	} else if (it < TB_MAX + E_MAX) {
 		uint64_t E = (uint64_t) (it - TB_MAX) + 1;
-		for (a = 1; a <= (uint64_t) L_MAX; a++) for (b = 1; b <= (uint64_t) B_MAX; b++) { check_one (a, E, b); n++; }
+		for (a = 1; a <= (uint64_t) L_MAX; a++) { for (b = 1; b <= (uint64_t) B_MAX; b++) { check_one (a, E, b); n++; } vf_heartbeat (); }
 	} else {
 		int i, j, k;
 		for (i = 0; i < nBL; i++) for (j = 0; j < nBE; j++) for (k = 0; k < nBB; k++) { check_one (BL[i], BE[j], BB[k]); n++; }
